@@ -173,6 +173,50 @@ def check_anchors(ctx, mod):
                              'rules cannot be evaluated' % (', '.join('%s %s' % m for m in missing[:8]), ctx.prop))
 
 
+def _defer_broken(ctx):
+    """a rule that cannot recognise the code any more (AnalysisBroken) must not keep the other rules of the property from
+    being evaluated: a violation that another rule decides stands, whatever the order of the rules in run().  Every rule
+    function of the rule modules (r<n>, *_rule; only those that return nothing, the others feed later rules) is wrapped
+    so that its AnalysisBroken is recorded and the evaluation goes on; run_property raises the first recorded one
+    afterwards unless a violation was found."""
+    import inspect
+    import re
+    import types
+    ctx.deferred_broken = []
+    for name in sorted(sys.modules):
+        if not name.startswith('rules.C'):
+            continue
+    import glob as _glob
+    for path in sorted(_glob.glob(os.path.join(os.path.dirname(os.path.abspath(__file__)), 'rules', 'C[0-9][0-9].py'))):
+        m = importlib.import_module('rules.' + os.path.basename(path)[:-3])
+        for fname, f in list(vars(m).items()):
+            if not isinstance(f, types.FunctionType) or f.__module__ != m.__name__ or getattr(f, '_deferring', False):
+                continue
+            if not (re.match(r'^r\d+$', fname) or fname.endswith('_rule')):
+                continue
+            try:
+                src = inspect.getsource(f)
+            except (OSError, TypeError):
+                continue
+            if re.search(r'^\s+return\s+\S', src, re.M):
+                continue
+
+            def make(f_):
+                def wrapper(c, *a, **k):
+                    try:
+                        return f_(c, *a, **k)
+                    except AnalysisBroken as e:
+                        if getattr(c, 'deferred_broken', None) is None:
+                            raise
+                        c.deferred_broken.append(str(e))
+                        return None
+                wrapper._deferring = True
+                wrapper.__name__ = f_.__name__
+                wrapper.__doc__ = f_.__doc__
+                return wrapper
+            setattr(m, fname, make(f))
+
+
 def run_property(prop, tier, seed, only=None, quiet=False):
     t0 = time.time()
     ctx = Ctx(prop, tier, seed)
@@ -188,9 +232,15 @@ def run_property(prop, tier, seed, only=None, quiet=False):
 
     try:
         check_anchors(ctx, mod)
+        _defer_broken(ctx)
         mod.run(ctx)
         import closure
         closure.share(ctx)
+        if ctx.deferred_broken:
+            if not any(o['status'] == 'violated' for o in ctx.obligations):
+                raise AnalysisBroken(ctx.deferred_broken[0])
+            for d in ctx.deferred_broken:
+                ctx.note('not evaluated: %s' % d)
         for rid, r in sorted(ctx.rules.items()):
             if r['count'] < r['min'] and not any(o['rule'] == rid and o['status'] == 'violated' for o in ctx.obligations):
                 raise AnalysisBroken('rule %s matched %d instance(s), confirmed minimum is %d - the anchor moved or '
